@@ -45,12 +45,17 @@ def load(root_file, cwd_mode=None):
         os.chdir(here)
 
 
+_ALIVE = []      # the last trees stay referenced, as in a long-lived tool (an editor plug-in, a server)
+
+
 def _load(root_file):
     from fcp.parser import get_fcp
     from fcp.error import Logger
     logger = Logger({})
     try:
         r = get_fcp(root_file, logger)
+        _ALIVE.append(r)
+        del _ALIVE[:-40]
         if r.is_ok():
             fcp = r.unwrap()
             return "ok", fcp, norm_actual(fcp.to_dict())
@@ -217,6 +222,18 @@ def run(pid, tier, seed):
                 f["text"] = swap_names(g["text"], "Aa", "Ee")
             chk.count(1, traces=1)
             judge_case(chk, twin, root, "G-renamed-twin", pid)
+        if pid == "C08" and ci % 4 in (1, 2, 3):
+            # alpha-renamings that make one type name CONTAIN another: the undeclared name becomes an extension of the declared
+            # struct's name / the enum's name an extension of the struct's / the struct's a prefix-free part of the enum's
+            import re
+            old_, new_ = (("Nowhere", "AaNowhere"), ("Ee", "AaEe"), ("Aa", "E"))[ci % 4 - 1]
+            dumped = json.dumps(c)
+            if json.dumps(old_) in dumped or re.search(r"\b%s\b" % old_, " ".join(f["text"] for f in c["files"])):
+                twin = json.loads(dumped.replace(json.dumps(old_), json.dumps(new_)))
+                for f, g in zip(twin["files"], c["files"]):
+                    f["text"] = re.sub(r"\b%s\b" % old_, new_, g["text"])
+                chk.count(1, traces=1)
+                judge_case(chk, twin, root, "G-name-containing-another", pid)
         chk.sample({"files": {"/".join(f["path"]) + ".fcp": f["text"] for f in c["files"]},
                     "specified": {k: c[k] for k in ("ok", "why", "file", "type", "struct", "inject")}}, cap=2)
     # (T) random declaration lists cut into random file trees; TLC (Ora_Modules) says what loading them gives
